@@ -3,7 +3,7 @@ import itertools
 
 import numpy as np
 
-from pbv import mm
+from pbv import gen, mm
 from pbv.core import Borderline, Violation, require, require_close, subcheck
 
 SUBCHECKS = []
@@ -41,13 +41,30 @@ def _one(d, ctx, kind, tier_all, **kw):
         stable_only=True, min_K=2, **kw)
     if case.init.shape != case.aff_shape:
         case.init = np.broadcast_to(case.init, case.aff_shape).copy()
+    sharp = False
+    if kind == 'cbmm' and case.lead == () and d.aux(51).integers(0, 3) == 0:
+        # strongly concentrated classes (60..90 dB above their own noise, each
+        # class at its own level) with a hard start: class scatters that are
+        # rank one up to 1e-9..1e-6 and not equal to each other
+        aux = d.aux(52)
+        K, N, D = case.K, case.N, case.D
+        lab = aux.permutation(np.arange(N) % K)
+        protos = gen.unit(gen.cnormal(aux, (K, D)))
+        sigma = 10.0 ** aux.uniform(-4.5, -3.0, size=K)
+        case.y = protos[lab] * gen.cnormal(aux, (N, 1)) + \
+            sigma[lab][:, None] * gen.cnormal(aux, (N, D))
+        case.init = (lab[None, :] == np.arange(K)[:, None]).astype(float)
+        case.opts.pop('saliency', None)
+        case.trainer_kwargs.pop('max_concentration', None)
+        case.meta['data'] = 'sharp-classes'
+        sharp = True
     if kind != 'cbmm' and d.int(0, 7) == 0:
         case.iterations = d.choice([12, 20])     # the property: iterations 1..20
     ctx.describe(**case.describe())
     K = case.K
     ctx.label(kind, f'K={K}', f'wca={case.opts.get("weight_constant_axis")}')
     m0 = ctx.lib(mm.fit, case, allow_if=mm.explicit_refusal)
-    if mm.ill_conditioned(m0, case):
+    if mm.ill_conditioned(m0, case, bingham_limit=-1e10 if sharp else -1e6):
         raise Borderline('fit sits on a numerical guard')
     p0 = mm.params(m0, case)
     post0 = ctx.lib(mm.predict, m0, case)
